@@ -483,6 +483,9 @@ class DeepCopyMethod(MethodDescriptor):
         if self.__spec_class__.do_not_copy:
             return self
         new = self.__class__.__new__(self.__class__)
+        # Register the copy before copying attributes, so that references back
+        # to this instance (cycles) resolve to the copy instead of recursing.
+        memo[id(self)] = new
         for attr, value in self.__dict__.items():
             if inspect.ismethod(value) and value.__self__ is self:
                 continue
